@@ -126,7 +126,7 @@ def state_letter(dst, old, new):
 
 def run(tier, seed, replay=None):
     res = C.Result("C12", tier, seed)
-    res.rule = ("ArchiveBuilder::build (V1..V4, with and without an existing destination) and MutableArchive::compact (clean, and with pending add/remove operations): the real "
+    res.rule = ("ArchiveBuilder::build (V1..V4, with and without an existing destination) MutableArchive::compact (clean, with pending add/remove operations, and after sessions that keep the number of entries: removal only, renaming only, replacing one file) and rebuild_archive (with and without an existing destination): the real "
                 "system calls are traced (strace), translated to model operations and (1) replayed on the file-system model, whose final destination content must equal the real "
                 "file and whose discipline verdict is taken, (2) the process is killed on entry of every file-system call in the window, and every write/open/rename is failed once "
                 "and persistently (ENOSPC, EACCES, EIO), and file-size limits cut writes short: afterwards the destination must hold its previous bytes or the complete new archive, a "
@@ -167,18 +167,43 @@ def run(tier, seed, replay=None):
             newstate["new.txt"] = nd
             del newstate["gone.bin"]
         cases.append({"kind": "compact", "cfg": "%d 0 g n 0 0 2" % ver, "files": files, "ops": ops, "dirty": dirty, "old_state": {n: d for n, d, _, _ in files}, "new_state": newstate})
+    # sessions that leave the number of entries as it is (removal only, renaming only, replacing one file) before compact()
+    for i in range(6 if big else 3):
+        ver = 1 + i % 2
+        files = [("keep.txt", c01.gen_content(r, 4, r.randrange(50, 600)), "d", 0), ("gone.bin", c01.gen_content(r, 1, r.randrange(10, 300)), "0", 0),
+                 ("z\\more.dat", c01.gen_content(r, 2, r.randrange(600, 3000)), "d", 0)]
+        newstate = {n: d for n, d, _, _ in files}
+        if i % 3 == 0:
+            ops = "r.%s" % C.hexs(b"gone.bin")
+            del newstate["gone.bin"]
+        elif i % 3 == 1:
+            ops = "m.%s.%s" % (C.hexs(b"keep.txt"), C.hexs(b"renamed.txt"))
+            newstate["renamed.txt"] = newstate.pop("keep.txt")
+        else:
+            nd = c01.gen_content(r, 4, r.randrange(10, 200))
+            ops = "a.%s.%s.2.0.1" % (C.hexs(b"gone.bin"), C.hexs(nd))
+            newstate["gone.bin"] = nd
+        cases.append({"kind": "compact", "cfg": "%d 0 g n 0 0 2" % ver, "files": files, "ops": ops, "dirty": True, "old_state": {n: d for n, d, _, _ in files}, "new_state": newstate})
+    # rebuild_archive writes an archive to a destination path as well
+    for i in range(6 if big else 3):
+        ver = 1 + i % 4
+        files = [("a.txt", c01.gen_content(r, 4, r.randrange(20, 400)), "d", 0), ("dir\\b.bin", c01.gen_content(r, 1, r.randrange(1, 300)), "0", 0),
+                 ("big.dat", c01.gen_content(r, 2, r.choice([700, 5000])), "d", 0)][: 1 + i % 3]
+        cases.append({"kind": "rebuild", "cfg": "%d 0 g n 0 0 2" % ver, "files": files, "existing": ["archive", None, "garbage"][i % 3]})
 
     def prepare(case, d):
         """fresh directory holding the pre-state; returns (dst, command)"""
         os.makedirs(d)
         dst = os.path.join(d, "out.mpq")
-        if case["kind"] == "build":
+        if case["kind"] in ("build", "rebuild"):
             if case["existing"] == "garbage":
                 with open(dst, "wb") as f:
                     f.write(b"previous content that is not an archive" * 7)
             elif case["existing"] == "archive":
                 shutil.copy(case["prev_archive"], dst)
             cmd = [im, "build", dst] + case["cfg"].split(" ") + [c01.entries_token(case["files"])]
+            if case["kind"] == "rebuild":
+                cmd = [im, "rebuild", case["src_archive"], dst, "0", "-", "-", "0", "0"]
         else:
             shutil.copy(case["prev_archive"], dst)
             cmd = [im, "compactat", dst, case["ops"]]
@@ -190,6 +215,10 @@ def run(tier, seed, replay=None):
         case["prev_archive"] = os.path.join(base, "prev%d.mpq" % ci)
         pf = case["files"] if case["kind"] == "compact" else [("old.txt", b"old archive content " * 5, "0", 0)]
         pl.append("build %s %s %s" % (case["prev_archive"], case["cfg"] if case["kind"] == "compact" else "1 0 g n 0 0 0", c01.entries_token(pf)))
+    for ci, case in enumerate(cases):
+        if case["kind"] == "rebuild":
+            case["src_archive"] = os.path.join(base, "src%d.mpq" % ci)
+            pl.append("build %s %s %s" % (case["src_archive"], case["cfg"], c01.entries_token(case["files"])))
     po = C.run_lines([im], pl)
     if any(o != "OK" for o in po):
         res.broken.append(("setup", {"out": po}))
@@ -207,7 +236,7 @@ def run(tier, seed, replay=None):
         ops, info, ids, ok = parse_trace(os.path.join(base, "c%d.trace" % ci), d, marker)
         label = "%s v%s existing=%s%s" % (case["kind"], case["cfg"].split(" ")[0], case.get("existing", "archive"), " dirty" if case.get("dirty") else "")
         res.case("clean " + label + " #%d" % ci)
-        if out != "OK" or not os.path.exists(dst):
+        if not out.startswith("OK") or not os.path.exists(dst):
             res.broken.append(("trace", {"case": label, "out": out, "translator_ok": ok}))
             continue
         if not ok:
@@ -304,7 +333,7 @@ def run(tier, seed, replay=None):
         stats[kind] += 1
         stats["states"][letter] = stats["states"].get(letter, 0) + 1
         res.case("%d|%s|%s|%s" % (ci, kind, inject, limit), nontrivial=True)
-        cj = {"case": case["label"], "command": "impl_mpq " + ("build <dst> %s %s" % (case["cfg"], c01.entries_token(case["files"])[:300]) if case["kind"] == "build" else "compactat <dst> " + case["ops"][:300]),
+        cj = {"case": case["label"], "command": "impl_mpq " + ("build <dst> %s %s" % (case["cfg"], c01.entries_token(case["files"])[:300]) if case["kind"] == "build" else "rebuild <src built with %s %s> <dst> 0 - - 0 0" % (case["cfg"], c01.entries_token(case["files"])[:300]) if case["kind"] == "rebuild" else "compactat <dst> " + case["ops"][:300]),
               "existing_destination": case.get("existing", "archive"), "injection": inject or "RLIMIT_FSIZE=%s" % limit, "destination_state": letter, "reported": out[:80], "third_state": extra}
         shape = case["kind"] + ("-dirty" if case.get("dirty") else "")
         if letter in ("X", "-") and extra not in ("reads-as-old", "reads-as-new"):
@@ -316,12 +345,12 @@ def run(tier, seed, replay=None):
                     res.failing.append(("ok-without-new-archive-%s" % shape, "the operation reported success but the destination does not hold the complete new archive", cj))
             elif out and out not in ("TIMEOUT",):
                 stats["reported_errors"] += 1
-                if letter == "N" and case["old"] != case["new"] and case["kind"] == "build":
-                    res.failing.append(("error-but-destination-replaced", "build reported an error and replaced the destination", cj))
+                if letter == "N" and case["old"] != case["new"] and case["kind"] in ("build", "rebuild"):
+                    res.failing.append(("error-but-destination-replaced", case["kind"] + " reported an error and replaced the destination", cj))
                 if letter not in ("O", "N") and extra not in ("reads-as-old", "reads-as-new"):
                     pass        # already reported above
-                if case["kind"] == "build" and letter != "O":
-                    res.failing.append(("error-touched-destination", "build reported an error but the previous destination content is not intact", cj))
+                if case["kind"] in ("build", "rebuild") and letter != "O":
+                    res.failing.append(("error-touched-destination", case["kind"] + " reported an error but the previous destination content is not intact", cj))
         if kind == "kill" and prefix is not None and "letters" in case and not case.get("dirty") and case.get("modelled"):
             ml = case["letters"][prefix] if prefix < len(case["letters"]) else "?"
             if ml != letter:
